@@ -8,14 +8,14 @@ import (
 )
 
 type jsonGrammar struct {
-	ArrAtoms   []string
-	ArrMaxLen  int
-	ObjKeys    []string
-	ObjVals    []string
-	ObjMaxLen  int
-	PrefixAll  bool // every proper prefix of every text
-	SubstMax   int  // single-byte substitutions for texts up to this length
-	TwoByte    bool // all 256 single bytes and all two-byte strings over structural bytes (C17)
+	ArrAtoms  []string
+	ArrMaxLen int
+	ObjKeys   []string
+	ObjVals   []string
+	ObjMaxLen int
+	PrefixAll bool // every proper prefix of every text
+	SubstMax  int  // single-byte substitutions for texts up to this length
+	TwoByte   bool // all 256 single bytes and all two-byte strings over structural bytes (C17)
 }
 
 func quickGrammar() jsonGrammar {
